@@ -151,7 +151,7 @@ class Ctx:
             self.discards[res.discard] = self.discards.get(res.discard, 0) + 1
             self.classes['discarded'] = self.classes.get('discarded', 0) + 1
             return
-        if res.nontrivial:
+        if res.nontrivial and not res.extra_nontrivial:
             self.nontrivial.add(case_hash(case))
         for k in res.extra_nontrivial:
             self.nontrivial.add(hashlib.sha256(
@@ -191,7 +191,8 @@ class Ctx:
 # --------------------------------------------------------------------------
 
 def hyp_generate(ctx, strategy, run_case, max_examples, tag='main',
-                 shrink_budget_s=None, max_shrink_buckets=3):
+                 shrink_budget_s=None, max_shrink_buckets=3,
+                 case_timeout=None):
     """Generate cases, execute, collect; then shrink new buckets."""
     import hypothesis
     from hypothesis import given, settings, Phase, HealthCheck
@@ -214,7 +215,7 @@ def hyp_generate(ctx, strategy, run_case, max_examples, tag='main',
     inner_run_case = run_case
 
     def run_case(case):
-        return with_timeout(inner_run_case, case, ctx)
+        return with_timeout(inner_run_case, case, ctx, case_timeout)
 
     def body(case):
         if ctx.out_of_time():
